@@ -27,6 +27,18 @@ func (fr *Frame) special(site ssa.Instruction, f *ssa.Function, args []Value, st
 		e := vc.alloc()
 		vc.addFact(st, Eq(App("errmsg", SStr, e), args[0].(*Term)))
 		return IfaceV{IntLit(typeTagNamed("*errors.errorString")), e}, true
+	case "reflect.DeepEqual":
+		vc.assumed["A-MISC: reflect.DeepEqual on two values of the same flat struct type is fieldwise equality; on values of different dynamic types it is false"] = true
+		a, b := args[0].(IfaceV), args[1].(IfaceV)
+		if a.Tag.Op == "int" && b.Tag.Op == "int" {
+			if a.Tag.Int != b.Tag.Int {
+				return TFalse, true
+			}
+			if t, ok := typeTagTypes[a.Tag.Int]; ok && kindOf(t) == "struct" && flatStruct(t) {
+				return eqValue(st.load(a.Val, t), st.load(b.Val, t)), true
+			}
+		}
+		return Var(freshName("deepequal"), SBool), true
 	case "strings.HasPrefix":
 		return App("hasPrefix", SBool, args[0].(*Term), args[1].(*Term)), true
 	case "strings.HasSuffix":
@@ -118,4 +130,21 @@ func (fr *Frame) sprintf(site ssa.Instruction, args []Value, st *State) *Term {
 
 func isErrorTag(t *Term) bool {
 	return t.Op == "int" && t.Int >= 900000
+}
+
+// flatStruct: only scalar (string/int/bool/opaque) fields, recursively
+func flatStruct(t types.Type) bool {
+	st := t.Underlying().(*types.Struct)
+	for i := 0; i < st.NumFields(); i++ {
+		switch kindOf(st.Field(i).Type()) {
+		case "str", "int", "bool", "opaque":
+		case "struct":
+			if !flatStruct(st.Field(i).Type()) {
+				return false
+			}
+		default:
+			return false
+		}
+	}
+	return true
 }
